@@ -700,10 +700,18 @@ func TestConcurrentFirstRequests(t *testing.T) {
 			}
 			cc.Modes = append(cc.Modes, m)
 		}
+		if rapid.IntRange(0, 2).Draw(t, "failingCamera") == 0 {
+			cc.Failing = rapid.SampledFrom([]string{"describe-404", "describe-eof", "options-rst", "setup-500"}).Draw(t, "failure")
+			cc.Digest = false
+			cc.Injected = rapid.IntRange(0, 3).Draw(t, "failingInjected") == 0 // mostly free-running: the requests overlap while the camera takes its time to fail
+		}
 		serial.Lock()
 		res := concurrent(cc)
 		serial.Unlock()
 		evid.Eval(1)
+		if cc.Failing != "" {
+			evid.Class(fmt.Sprintf("simultaneous first requests against a failing camera (%s), injected=%v", cc.Failing, cc.Injected))
+		}
 		evid.Class(fmt.Sprintf("simultaneous: %d requesters, injected=%v -> %d pulls", n, cc.Injected, res.pulls))
 		if res.pulls >= 2 {
 			evid.Nontrivial(evid.FP("concurrent", cc.key()))
